@@ -496,6 +496,44 @@ func c18GenDirect(r *lib.Rng, tier string) lib.Case {
 	return lib.Case{Header: hdr, Ops: ops}
 }
 
+// c18GenDB: a trace on a real dkv.DB (hook-scheduled flush and compaction tasks): writes keep rotating memtables, flushes
+// commit while a computed change set waits for its commit, compaction steps are repeated until the task goes idle.
+func c18GenDB(r *lib.Rng, tier string) lib.Case {
+	hdr := fmt.Sprintf("M C18 mode=db mem=%d target=%d l0=%d amp=%d smallest=%d", lib.Pick(r, []int{40, 60, 120}), lib.Pick(r, []int{32, 64, 160}),
+		lib.Pick(r, []int{1, 2, 2, 3}), lib.Pick(r, []int{1, 50, 150, 250, 400, 100000}), lib.Pick(r, []int{1, 4500, 9000, 1 << 40}))
+	n := r.Range(40, 140)
+	if tier == "thorough" {
+		n = r.Range(40, 320)
+	}
+	var ops []string
+	for len(ops) < n {
+		switch x := r.Intn(100); {
+		case x < 45:
+			ops = append(ops, fmt.Sprintf("put %s %s", lib.Hex(c07Key(r)), lib.Hex(c07Val(r))))
+		case x < 55:
+			ops = append(ops, "del "+lib.Hex(c07Key(r)))
+		case x < 62:
+			ops = append(ops, "get "+lib.Hex(c07Key(r)))
+		case x < 66:
+			ops = append(ops, "scan "+lib.Hex(lib.Pick(r, [][]byte{nil, {0x61}, {0xff}})))
+		case x < 80:
+			ops = append(ops, "bg f")
+		default:
+			ops = append(ops, "bg c")
+		}
+	}
+	// drain: finish flushes and compactions, then observe everything
+	for i := 0; i < 12; i++ {
+		ops = append(ops, "bg f", "bg c")
+	}
+	ops = append(ops, "scan -")
+	for _, k := range c07Pool {
+		ops = append(ops, "get "+lib.Hex(k))
+	}
+	ops = append(ops, "chk")
+	return lib.Case{Header: hdr, Ops: ops}
+}
+
 func c18Fixed() []lib.Case {
 	obs := c18ObserveOps()
 	// D22: L0{k@9}  L2{A: a@1, B: k@5}  base{z@2}, four tables of about the same size, goal 250 %: 300 % before, 200 % after
@@ -535,15 +573,21 @@ func propC18() *lib.Prop {
 		},
 		Fixed: func(string) []lib.Case { return c18Fixed() },
 		Gen: func(r *lib.Rng, tier string, i int) lib.Case {
+			if i%4 == 3 {
+				return c18GenDB(r, tier)
+			}
 			return c18GenDirect(r, tier)
 		},
 		Impl: func(c lib.Case) []string {
 			cfg := parseC18Header(c.Header)
+			if cfg.mode == "db" {
+				return runC18DB(c)
+			}
 			return runC18Direct(c, cfg)
 		},
 		Nontrivial: func(c lib.Case, out []string) bool {
 			for i, o := range out {
-				if o == "ok" && c.Ops[i] == "apply" {
+				if (o == "ok" && c.Ops[i] == "apply") || strings.HasPrefix(o, "compact L") {
 					return true
 				}
 			}
@@ -569,6 +613,290 @@ func propC18() *lib.Prop {
 	}
 }
 
-var _ = time.Second
-var _ = dkv.New
-var _ = verifhook.Set
+// ---- db mode ----
+
+// runC18DB is c07.go's runDkvTrace (hook-scheduled real dkv.DB) extended with what C18 compares at every compaction
+// step: the oracle answers computed from the real sizes before Compact runs and the compactor's cursor after it.
+func runC18DB(c lib.Case) []string {
+	c07Mu.Lock() // one DB at a time: the flush/compaction queues and the hook handler are process-global
+	defer c07Mu.Unlock()
+	cfg := parseC07Header(c.Header)
+	c07Seq++
+	fs := storage.NewMemoryFilesystem().WithWorkingDir(fmt.Sprintf("c18-%d", c07Seq))
+	db := dkv.New(dkv.DBOptions{FileSystem: fs, MemTableSize: uint64(cfg.mem), TargetFileSize: uint64(cfg.target), L0TableNumCompactionTrigger: cfg.l0})
+	comp := db.VerifCompactor()
+	comp.MaxSizeAmplificationPercent = cfg.maxAmp
+	comp.SmallestLevelSize = int64(cfg.smallest)
+	if err := db.Start(nil); err != nil {
+		panic(err)
+	}
+	s := &dkvSched{db: db, parked: map[string]*parkedTask{}, events: make(chan string, 64), ids: map[*sst.Table]int{}}
+	verifhook.Set(s.handler)
+	defer func() {
+		s.freeAll()
+		done := make(chan struct{})
+		go func() { db.WaitOnTasks(); close(done) }()
+		select {
+		case <-done:
+		case <-time.After(10 * time.Second):
+		}
+		verifhook.Set(nil)
+	}()
+
+	flushQ, compactQ := 0, 0 // tasks enqueued and not finished
+	flushedSinceBegin := false
+	var readRes chan string
+	out := make([]string, 0, len(c.Ops))
+	for _, op := range c.Ops {
+		f := strings.Fields(op)
+		if readRes != nil && f[0] != "bg" && f[0] != "resume" {
+			out = append(out, "reader-busy")
+			continue
+		}
+		switch f[0] {
+		case "put", "del":
+			if flushQ >= 4 {
+				// bg.TaskQueue holds 5 tasks: a further rotation would block the writer until a flush finishes
+				out = append(out, "queue-full")
+				continue
+			}
+			before := db.VerifMemtableCount()
+			if f[0] == "put" {
+				db.Put(lib.UnHex(f[1]), lib.UnHex(f[2]))
+			} else {
+				db.Delete(lib.UnHex(f[1]))
+			}
+			if db.VerifMemtableCount() > before {
+				flushQ++
+				out = append(out, "rot=1")
+			} else {
+				out = append(out, "rot=0")
+			}
+		case "chk":
+			out = append(out, "safe")
+		case "get":
+			out = append(out, showEntry(db.Get(lib.UnHex(f[1]))))
+		case "scan":
+			out = append(out, showScanEntries(db, lib.UnHex(f[1])))
+		case "getpark":
+			s.mu.Lock()
+			s.holdRead = true
+			s.mu.Unlock()
+			res := make(chan string, 1)
+			key := lib.UnHex(f[1])
+			go func() { res <- showEntry(db.Get(key)) }()
+			// either the reader parks between its phases or it returns from the memtable phase
+			deadline := time.Now().Add(schedGrace)
+			for {
+				s.mu.Lock()
+				p := s.parked["read"]
+				s.mu.Unlock()
+				if p != nil {
+					readRes = res
+					out = append(out, "parked")
+					break
+				}
+				select {
+				case r := <-res:
+					out = append(out, "done "+r)
+				default:
+					if time.Now().After(deadline) {
+						out = append(out, "timeout")
+					} else {
+						time.Sleep(20 * time.Microsecond)
+						continue
+					}
+				}
+				s.mu.Lock()
+				s.holdRead = false
+				s.mu.Unlock()
+				break
+			}
+		case "scanpark":
+			s.mu.Lock()
+			s.holdRead = true
+			s.mu.Unlock()
+			res := make(chan string, 1)
+			pfx := lib.UnHex(f[1])
+			go func() { res <- showScanEntries(db, pfx) }()
+			if s.waitParked("read") != nil {
+				readRes = res
+				out = append(out, "parked")
+			} else {
+				s.mu.Lock()
+				s.holdRead = false
+				s.mu.Unlock()
+				out = append(out, "timeout")
+			}
+		case "resume":
+			if readRes == nil {
+				out = append(out, "no-reader")
+				continue
+			}
+			s.mu.Lock()
+			s.holdRead = false
+			s.mu.Unlock()
+			s.release("read")
+			select {
+			case r := <-readRes:
+				out = append(out, r)
+			case <-time.After(schedGrace):
+				out = append(out, "timeout")
+			}
+			readRes = nil
+		case "bg":
+			switch f[1] {
+			case "f":
+				if flushQ == 0 {
+					out = append(out, "none")
+					continue
+				}
+				t := s.waitParked("flush")
+				if t == nil {
+					out = append(out, "timeout")
+					continue
+				}
+				n := t.payload[1].(int)
+				if t.label != "dkv.flush.begin" && compactQ >= 4 {
+					out = append(out, "queue-full")
+					continue
+				}
+				if t.label == "dkv.flush.begin" {
+					s.release("flush")
+					if s.waitParked("flush") == nil {
+						out = append(out, "timeout")
+						continue
+					}
+					out = append(out, fmt.Sprintf("flushbegin %d", n))
+				} else {
+					s.release("flush")
+					if s.waitEvent("dkv.flush.done") == "timeout" {
+						out = append(out, "timeout")
+						continue
+					}
+					flushQ--
+					compactQ++
+					// mirror the model's id assignment: new level-0 tables in insertion order
+					for _, ti := range db.VerifLevels().VerifLayout()[0] {
+						if _, ok := s.ids[ti.Table]; !ok {
+							s.ids[ti.Table] = s.nextID
+							s.nextID++
+						}
+					}
+					flushedSinceBegin = true
+					out = append(out, fmt.Sprintf("flushcommit %d", n))
+				}
+			case "c":
+				if compactQ == 0 {
+					out = append(out, "none")
+					continue
+				}
+				t := s.waitParked("compact")
+				if t == nil {
+					out = append(out, "timeout")
+					continue
+				}
+				if t.label == "dkv.compact.begin" {
+					orc := c18Oracle(db.VerifLevels(), comp)
+					curBefore := comp.VerifMinorLevel()
+					s.release("compact")
+					// the task either goes idle (no change set) or parks at the commit
+					got := ""
+					deadline := time.Now().Add(schedGrace)
+					for got == "" {
+						select {
+						case e := <-s.events:
+							if e == "dkv.compact.idle" {
+								got = "idle"
+							}
+							continue
+						default:
+						}
+						s.mu.Lock()
+						p := s.parked["compact"]
+						s.mu.Unlock()
+						if p != nil && p.label == "dkv.compact.commit" {
+							got = "parked"
+						} else if time.Now().After(deadline) {
+							got = "timeout"
+						} else {
+							// (a task parked at "begin" is the next queued task: the idle event of this one is on its way)
+							time.Sleep(20 * time.Microsecond)
+						}
+					}
+					switch got {
+					case "idle":
+						compactQ--
+						c18Bump("db:compact-none")
+						out = append(out, fmt.Sprintf("compactidle %s cur=%d", orc, comp.VerifMinorLevel()))
+					case "parked":
+						switch {
+						case orc[3] == '1':
+							c18Bump("db:compact-major")
+						case curBefore == 0:
+							c18Bump("db:compact-minor-l0")
+						default:
+							c18Bump("db:compact-minor-deep")
+						}
+						flushedSinceBegin = false
+						out = append(out, fmt.Sprintf("compactbegin %s cur=%d", orc, comp.VerifMinorLevel()))
+					default:
+						out = append(out, "timeout")
+					}
+				} else { // at commit
+					cs := t.payload[1].(*sst.ChangeSet)
+					lvls, added, removed := cs.VerifChangeSet()
+					nLevels := len(db.VerifLevels().VerifLayout())
+					lvl := -2
+					for _, l := range lvls {
+						if l < 0 {
+							l = nLevels + l
+						}
+						if lvl == -2 {
+							lvl = l
+						} else if lvl != l {
+							lvl = -3
+						}
+					}
+					var rm []string
+					for _, r := range removed {
+						if id, ok := s.ids[r]; ok {
+							rm = append(rm, strconv.Itoa(id))
+						} else {
+							rm = append(rm, "999999")
+						}
+					}
+					var add []string
+					for _, a := range added {
+						add = append(add, dumpTable(a))
+						s.ids[a] = s.nextID
+						s.nextID++
+					}
+					s.release("compact")
+					if s.waitEvent("dkv.compact.done") == "timeout" {
+						out = append(out, "timeout")
+						continue
+					}
+					rmS, addS := "-", "none"
+					if len(rm) > 0 {
+						rmS = strings.Join(rm, ",")
+					}
+					if len(add) > 0 {
+						addS = strings.Join(add, "|")
+					}
+					if flushedSinceBegin {
+						c18Bump("db:commit-after-flush-arrival")
+					}
+					flushedSinceBegin = false
+					out = append(out, fmt.Sprintf("compact L%d rm=%s add=%s cur=%d", lvl, rmS, addS, comp.VerifMinorLevel()))
+				}
+			default:
+				out = append(out, "bad-op")
+			}
+		default:
+			out = append(out, "bad-op")
+		}
+	}
+	return out
+}
+
